@@ -407,6 +407,13 @@ def enclosing_stmt(node: ast.AST) -> ast.stmt | None:
     return cur  # type: ignore[return-value]
 
 
+def tnorm(node: ast.AST | str) -> str:
+    """Plain normalised text (the engine's own comparisons are exact)."""
+    if isinstance(node, str):
+        return " ".join(node.split())
+    return " ".join(ast.unparse(node).split())
+
+
 def norm(node: ast.AST | str) -> str:
     """Normalised text of a construct. For a node inside a function the result
     is a `pattern.S`: a str that also equals / contains a probe whose only
